@@ -446,6 +446,64 @@ impl Shape {
         }
     }
 
+    /// C05 clause 1 over a long session: one small store of short words answering more than 2^16 searches (their
+    /// vowel-swapped and letter-swapped spellings, which match fuzzily but often share no gram); a few queries
+    /// are used at the start and come back after 65 536 searches. Every hit of every search must share a gram.
+    fn session_case(&self, cx: &mut Cx, lang: &'static str) {
+        let alpha = gen::lower_alphabet(lang);
+        let mut words: Vec<String> = ["ant", "ent", "zebra", "the", "form", "cat", "dig", "wifi", "metal"].iter().map(|w| w.to_string()).collect();
+        for _ in 0..3 {
+            words.push(gen::rand_word(&mut cx.rng, &alpha, 3, 4));
+        }
+        let n = cx.rng.range(2, words.len());
+        let recs: Vec<Rec> = (0..n).map(|i| (i, if cx.rng.chance(1, 3) { format!("{} {}", words[i], cx.rng.pick(&words)) } else { words[i].clone() }, i)).collect();
+        let st = St::build_sentinel(lang, &recs, *cx.rng.pick(&[1usize, 3, 10]));
+        let rgrams: Vec<BTreeSet<oracle::Gram>> = recs.iter().map(|r| oracle::grams_of(&st.tok_record(&r.1))).collect();
+        let vowels = if lang == "ru" { cv("аеиоу") } else { cv("aeiou") };
+        let mut queries: Vec<String> = vec![];
+        for w in &words {
+            let c = cv(w);
+            queries.push(w.clone());
+            let mut t = c.clone();
+            t.swap(0, 1);
+            queries.push(s(&t));
+            let mut v = c.clone();
+            if let Some(p) = v.iter().position(|x| vowels.contains(x)) {
+                v[p] = *cx.rng.pick(&vowels);
+            }
+            queries.push(s(&v));
+        }
+        let shares: Vec<Vec<bool>> = queries
+            .iter()
+            .map(|q| {
+                let tq = st.tok_query(q);
+                let qg = oracle::grams_of(&tq);
+                rgrams.iter().map(|g| !g.is_disjoint(&qg)).collect()
+            })
+            .collect();
+        let lead = 6usize;
+        let total = 65_560 + lead;
+        let mut judged = 0u64;
+        for k in 0..total {
+            let in_lead = k < lead || k >= 65_530;
+            let qi = if in_lead { k % queries.len() } else { lead + (k * 5 + k / 31) % (queries.len() - lead) };
+            if k % 8192 == 0 || in_lead {
+                cx.ctx(format!("C05 session lang={} records={:?} search #{} q={:?}", lang, recs, k + 1, queries[qi]));
+            }
+            for h in st.search(&queries[qi]) {
+                judged += 1;
+                if !shares[qi][h.0] {
+                    cx.fail("unrelated-hit", json!({"lang": lang, "records": recs, "limit": st.store.limit, "history": format!("search #{} on this store; the queries {:?} were used by the first {} searches and again from search #65531 on, the rest cycled in between", k + 1, &queries[..lead], lead), "query": queries[qi], "hit": h}));
+                    return;
+                }
+            }
+        }
+        cx.evals_n(total as u64);
+        cx.count_n("session searches on one store", total as u64);
+        cx.count_n("session hits judged", judged);
+        cx.key(hparts(&[lang, &format!("{:?}", recs), "session"]));
+    }
+
     /// Joined-record matches with typos, cut short: one query word (no separator typed) covering two
     /// title words, the second of which starts with an accented / expanding letter of the language.
     fn joined_case(&self, cx: &mut Cx, lang: &'static str) {
@@ -644,14 +702,14 @@ impl Prop for Shape {
     fn streams(&self) -> Vec<Stream> {
         match self.0 {
             Which::Titles => vec![Stream::new("stores", 16000, 800000), Stream::new("bridge", 3200, 160000)],
-            Which::Related => vec![Stream::new("stores", 16000, 800000), Stream::new("exact", 168, 8400), Stream::new("joined", 8000, 400000), Stream::new("corpus", 64, 1600), Stream::new("big", 16, 160)],
+            Which::Related => vec![Stream::new("stores", 16000, 800000), Stream::new("exact", 168, 8400), Stream::new("joined", 8000, 400000), Stream::new("corpus", 64, 1600), Stream::new("big", 16, 160), Stream::new("session", 16, 96)],
             Which::Markup => vec![Stream::new("stores", 20000, 1000000), Stream::new("joined", 16000, 800000)],
         }
     }
     fn floors(&self) -> Vec<(&'static str, u64, u64)> {
         match self.0 {
             Which::Titles => vec![("hit with span", 2000, 20000), ("hit whose title needed composition", 50, 500), ("hit with expanding letter", 50, 500), ("hit whose title has NUL", 30, 300), ("hit whose title contains marker text", 50, 500), ("bridge searches with hits", 200, 2000), ("empty-query searches", 100, 1000), ("stores of 70-150 records with one very long title", 100, 5000)],
-            Which::Related => vec![("hit with fuzzy span", 200, 2000), ("hit with joined-record spans", 20, 200), ("exact-prefix case", 2000, 20000), ("exact-prefix ending inside an expanded letter", 5, 50), ("corpus-store searches", 300, 8000), ("corpus-store searches with more than 8 query words", 50, 1200), ("big-catalogue searches", 100, 1000)],
+            Which::Related => vec![("hit with fuzzy span", 200, 2000), ("hit with joined-record spans", 20, 200), ("exact-prefix case", 2000, 20000), ("exact-prefix ending inside an expanded letter", 5, 50), ("corpus-store searches", 300, 8000), ("corpus-store searches with more than 8 query words", 50, 1200), ("big-catalogue searches", 100, 1000), ("session searches on one store", 1000000, 6000000), ("session hits judged", 100000, 600000)],
             Which::Markup => vec![("hit with 2+ spans", 500, 5000), ("joined-record split (more spans than query words)", 20, 200), ("hit of separator-only query", 200, 2000), ("span in title with padding", 30, 300), ("joined-with-typos hits with 2+ spans and typos", 2000, 100000), ("stores with opening and closing markers of different lengths", 1000, 10000)],
         }
     }
@@ -664,6 +722,7 @@ impl Prop for Shape {
             "joined" => self.joined_case(cx, lang),
             "corpus" => self.corpus_case(cx, if idx % 2 == 0 { "en" } else { "none" }),
             "big" => self.big_case(cx, lang),
+            "session" => self.session_case(cx, LANGS[((idx / 2) % NL) as usize]),
             _ => {}
         }
     }
